@@ -479,11 +479,17 @@ impl From<PartialResponse> for Response {
         } else {
             Decision::Deny
         };
-        Response::new(
-            decision,
-            p.must_be_determining().map(|p| p.id().clone()).collect(),
-            p.errors().collect(),
-        )
+        // Residual policies are reported as errors below, i.e., they count as not
+        // satisfied, so the determining policies are the satisfied forbids if there
+        // are any and the satisfied permits otherwise. (`must_be_determining` is an
+        // under-approximation for the partial response and yields no policy at all
+        // when the only forbids are residual.)
+        let reason = if p.satisfied_forbids.is_empty() {
+            p.satisfied_permits.keys().cloned().collect()
+        } else {
+            p.satisfied_forbids.keys().cloned().collect()
+        };
+        Response::new(decision, reason, p.errors().collect())
     }
 }
 
